@@ -421,6 +421,8 @@ type scriptParams struct {
 	ConnTouched  bool   // connection_limit.stop/resume set to 0 or 1: stream transports are not required
 	TimeTouched  bool   // a duration was set to 1ns: a timeout is the configured behaviour, no answer is required
 	DNSCheckOK   bool   // check.kv.type is "cache": the DNS-check name must be answered
+	DNSCheckAll  bool   // backend-matrix case: DNS-check names are sent, and must be answered, whatever the store (an error of the store is reported, the query is still answered)
+	KVFault      string // fault mode of the key-value backend
 	ProviderName string
 	ProviderPK   string
 
@@ -468,6 +470,18 @@ func runTraffic(servers []liveServer, sp scriptParams, hopeless func() bool) (gr
 						base = append(base, query{dnsCheckName, dns.TypeA, 0})
 					}
 					add("dns-udp", "allowlisted", "all", udpExchanger(srcAllowlisted, addr), base)
+					if sp.DNSCheckAll {
+						g := "dnscheck"
+						if sp.KVFault != "" {
+							g = "dnscheck-failing-backend"
+						}
+						add(g, "allowlisted", "all", udpExchanger(srcAllowlisted, addr), []query{
+							{"c20a" + sp.Tag + "-" + dnsCheckSuffix, dns.TypeA, 0}, {"c20b" + sp.Tag + "-" + dnsCheckSuffix, dns.TypeAAAA, 0},
+						})
+						add(g, "allowlisted-tcp", "all", streamExchanger(srcAllowlisted, addr, nil), []query{
+							{"c20c" + sp.Tag + "-" + dnsCheckSuffix, dns.TypeA, 0},
+						})
+					}
 					add("dns-udp-any", "allowlisted", "none", udpExchanger(srcAllowlisted, addr), []query{{name("a1"), dns.TypeANY, 0}})
 					var burst []query
 					for i := 0; i < 50; i++ {
